@@ -140,15 +140,15 @@ ostep!(o_dup_area, Cfg { kind: 5, h: 1, d: 4, area: 3, depth: [0, 0, 0, 2, 2, 0]
 ostep!(o_heart_new, Cfg { kind: 0, h: 1, d: 2, area: 1, depth: [0, 0, 0, 1, 0, 0], ..CFG0 });
 // @h prop=C02 unwind=10 rec=3 cutfmt=1 uw=same_output.0:25;exit_model.0:25;exit.0:25;push.0:17;write.0:17 timeout=900 what=?_area_pop_on_stack_3
 ostep!(o_q, Cfg { kind: 0, h: 1, d: 2, area: 3, depth: [0, 0, 0, 2, 0, 0], ..CFG0 });
-// @h prop=C02 unwind=10 rec=2 cutfmt=num uw=same_output.0:25;exit_model.0:25;exit.0:25;push.0:17;write.0:17 timeout=1800 what=항_to_stdout:captured_output_equals_definition_or_same_encoding_error
+// @h prop=C02 unwind=10 rec=2 cutfmt=num uw=same_output.0:25;exit_model.0:25;exit.0:25;push.0:17;write.0:17 timeout=1800 tier=thorough kind=stretch what=항_to_stdout:captured_output_equals_definition_or_same_encoding_error
 ostep!(o_out_char, Cfg { kind: 1, h: 1, d: 1, dom: Dom::Scalar, depth: [0, 0, 0, 2, 0, 0], ..CFG0 });
-// @h prop=C02 unwind=10 rec=2 cutfmt=num uw=same_output.0:25;exit_model.0:25;exit.0:25;push.0:17;write.0:17 timeout=900 what=항_to_stderr:negative/NaN_text_captured
+// @h prop=C02 unwind=10 rec=2 cutfmt=num uw=same_output.0:25;exit_model.0:25;exit.0:25;push.0:17;write.0:17 timeout=900 tier=thorough kind=stretch what=항_to_stderr:negative/NaN_text_captured
 ostep!(o_err_neg, Cfg { kind: 1, h: 1, d: 2, dom: Dom::Digit, depth: [0, 0, 0, 2, 0, 0], ..CFG0 });
 // @h prop=C02 unwind=10 rec=3 cutfmt=num uw=same_output.0:25;exit_model.0:25;exit.0:25;push.0:17;write.0:17 timeout=900 what=형?_with_stdout_selected:prints_then_must_give_up->no_output_kept,state_restored
 ostep!(o_print_then_bail, Cfg { kind: 0, h: 8, d: 8, cur: 1, area: 3, depth: [0, 0, 0, 1, 0, 0], ..CFG0 });
-// @h prop=C02 unwind=10 rec=3 cutfmt=num uw=same_output.0:25;exit_model.0:25;exit.0:25;push.0:17;write.0:17 timeout=900 what=흑_copies_to_stdout,selects_it,area_pop_forces_giving_up
+// @h prop=C02 unwind=10 rec=3 cutfmt=num uw=same_output.0:25;exit_model.0:25;exit.0:25;push.0:17;write.0:17 timeout=900 tier=thorough kind=stretch what=흑_copies_to_stdout,selects_it,area_pop_forces_giving_up
 ostep!(o_dup_print_bail, Cfg { kind: 5, h: 2, d: 1, area: 4, dom: Dom::Scalar, depth: [0, 0, 0, 1, 0, 0], ..CFG0 });
-// @h prop=C02 unwind=10 rec=3 cutfmt=num uw=same_output.0:25;exit_model.0:25;exit.0:25;push.0:17;write.0:17 timeout=900 what=흣_to_stderr_then_?_on_stack_3:commits_with_output
+// @h prop=C02 unwind=10 rec=3 cutfmt=num uw=same_output.0:25;exit_model.0:25;exit.0:25;push.0:17;write.0:17 timeout=900 tier=thorough kind=stretch what=흣_to_stderr_then_?_on_stack_3:commits_with_output
 ostep!(o_neg_out_bail, Cfg { kind: 3, h: 1, d: 2, cur: 3, area: 3, dom: Dom::Digit, depth: [0, 0, 0, 1, 0, 0], ..CFG0 });
 // @h prop=C10 unwind=10 rec=2 cutfmt=1 uw=same_output.0:25;exit_model.0:25;exit.0:25;push.0:17;write.0:17 timeout=600 mem=12 what=kind_1_with_stack_0_selected:gives_up,state_untouched,no_read,no_exit,no_output
 ostep!(n_k1_c0, Cfg { kind: 1, h: 1, d: 3, cur: 0, depth: [1, 0, 0, 1, 0, 0], ..CFG0 });
